@@ -240,6 +240,12 @@ func (x *Exec) binop(op token.Token, a, b Value, rt types.Type, pc *Term, pos to
 		}
 		return one(Div(p, NumB(Pow2(k))))
 	case token.AND, token.OR, token.XOR, token.AND_NOT:
+		// distribute over a choice between constants: x op ite(c, k1, k2)
+		if q.Op == "ite" && q.Args[1].IsInt() && q.Args[2].IsInt() {
+			l := x.binop(op, a, Value{T: b.T, C: []*Term{q.Args[1]}}, rt, pc, pos)
+			r := x.binop(op, a, Value{T: b.T, C: []*Term{q.Args[2]}}, rt, pc, pos)
+			return one(Ite(q.Args[0], l.One(), r.One()))
+		}
 		var cst *big.Int
 		var u *Term
 		if q.IsInt() {
@@ -273,7 +279,7 @@ func (x *Exec) binop(op token.Token, a, b Value, rt types.Type, pc *Term, pos to
 			// ground instances of the bit-or axioms (proved in QF_BV: lemma/bitops)
 			x.assumeTrue(Implies(Eq(p, Num(0)), Eq(r, q)))
 			x.assumeTrue(Implies(Eq(q, Num(0)), Eq(r, p)))
-			for _, k := range []int{7, 14, 21, 28} {
+			for _, k := range []int{7, 13, 14, 16, 21, 28} {
 				m := NumB(Pow2(k))
 				x.assumeTrue(Implies(And(Le(Num(0), p), Lt(p, m), Le(Num(0), q), Eq(Mod(q, m), Num(0))), Eq(r, Add(p, q))))
 				x.assumeTrue(Implies(And(Le(Num(0), q), Lt(q, m), Le(Num(0), p), Eq(Mod(p, m), Num(0))), Eq(r, Add(p, q))))
